@@ -121,3 +121,25 @@ theorem choSolveM_col {n p p' : Nat} (L : Mat ℝ n n) (B : Mat ℝ n p) (B' : M
   rw [hc2]
 
 end Mellon
+
+namespace Mellon
+open Finset
+
+/-- `cho_solve` is additive in the right-hand side. -/
+theorem choSolveM_add {n p : Nat} (L : Mat ℝ n n) (B B1 B2 : Mat ℝ n p)
+    (hB : ∀ i j, i < n → j < p → B.el i j = B1.el i j + B2.el i j) :
+    ∀ i j, i < n → j < p → (choSolveM L B).el i j = (choSolveM L B1).el i j + (choSolveM L B2).el i j := by
+  intro i j hi hj
+  unfold choSolveM
+  rw [solveUpperTM_el _ _ i j hi hj, solveUpperTM_el _ _ i j hi hj, solveUpperTM_el _ _ i j hi hj]
+  have h1 : ∀ k, k < n → ((solveLowerM L B).col j).nth k
+      = 1 * ((solveLowerM L B1).col j).nth k + ((solveLowerM L B2).col j).nth k := by
+    intro k hk
+    simp only [col_nth, hk, if_true]
+    rw [solveLowerM_el _ _ k j hk hj, solveLowerM_el _ _ k j hk hj, solveLowerM_el _ _ k j hk hj]
+    exact solveLower_linear L 1 (B.col j) (B1.col j) (B2.col j)
+      (by intro t ht; simp only [col_nth, ht, if_true, one_mul]; exact hB t j ht hj) k hk
+  have := solveUpperT_linear L 1 _ _ _ h1 i hi
+  rw [this]; ring
+
+end Mellon
